@@ -271,7 +271,11 @@ def sorting(ctx) -> None:
                         and isinstance(m.ast.value, ast.Subscript) and isinstance(m.ast.value.value, ast.Name) and is_name(m.ast.value.slice, lp.ast.target.id) and not fv.controlling(m.id, within=lb):
                     target = (lp, m.ast.value.value.id, m.ast.targets[0])
     if target is None:
-        ctx.rep.refuted(rule, f"{f.qualname}/sorting-loop", "no loop over the column groups that unpacks (sources, destinations, volumes): rows within a column are not sorted", where=f.where())
+        sorts = any(isinstance(x, ast.Call) and call_fname(x) in ("sorted", "sort", "argsort", "lexsort") for n in fv.cfg.nodes if n.ast is not None for x in own_walk(n.ast))
+        if sorts and any(n.kind == "for" for n in fv.cfg.nodes):
+            ctx.rep.inconclusive(rule, f"{f.qualname}/sorting-loop", "the loop that sorts the rows of each column group was not recognised (no loop unpacking (sources, destinations, volumes))", where=f.where())
+        else:
+            ctx.rep.refuted(rule, f"{f.qualname}/sorting-loop", "no loop over the column groups that unpacks (sources, destinations, volumes): rows within a column are not sorted", where=f.where())
         return
     lp, groups_name, trip = target
     names = [e.id for e in trip.elts]
@@ -403,6 +407,8 @@ def _eval(e: ast.AST, env: dict):
             return a is not b
     if isinstance(e, ast.IfExp):
         return _eval(e.body, env) if _eval(e.test, env) else _eval(e.orelse, env)
+    if isinstance(e, ast.Call) and isinstance(e.func, ast.Name) and e.func.id in ("frozenset", "set", "tuple", "list") and len(e.args) == 1 and not e.keywords:
+        return list(_eval(e.args[0], env))
     raise _Unknown(ast.unparse(e)[:40])
 
 
@@ -463,6 +469,12 @@ def optimize(ctx) -> None:
         for st in (False, True):
             for dt in (False, True):
                 env = {"partition_by": mode, "source.is_trough": st, "destination.is_trough": dt, "label": None}
+                # module-level constants (e.g. the set of mode names) are part of the closed vocabulary
+                for cname, cval in f.module.assigns.items():
+                    try:
+                        env.setdefault(cname, _eval(cval, {}))
+                    except (_Unknown, TypeError):
+                        pass
                 kind, val = _run_scenario(fv, env)
                 if kind == "unknown":
                     ctx.rep.inconclusive(rule, f"{f.qualname}/decision", f"decision function is outside the evaluable fragment: {val}", where=w)
